@@ -23,6 +23,7 @@ Inductive call :=
 | CRepartition (s : stype) (f : ty)
 | CReshard (s : stype) (n : Z)
 | CCogroup (ss : list stype)
+| CInvocation (params : list ty) (args : list (option ty))   (* None = an untyped nil argument *)
 (* facts about the harness universe, checked against the tables below *)
 | QAssignable (v t : ty)
 | QCanHash (t : ty)
@@ -32,6 +33,7 @@ Inductive observed :=
 | OAccept (out : stype)             (* returned; Out(i), Prefix(), NumShard() of the result *)
 | OTypeErr (at_caller : bool)       (* *typecheck.Error; is File:Line the harness call site *)
 | OPanic                            (* any other panic value *)
+| OOk                               (* Invocation returned *)
 | OBool (b : bool).                 (* answer to a Q query *)
 
 Definition case := (call * observed)%type.
@@ -61,7 +63,7 @@ Definition corr_universe : universe := mkU
 
 Notation CU := corr_universe.
 
-Inductive mres := MOut (o : outcome) | MBool (b : bool).
+Inductive mres := MOut (o : outcome) | MFunc (r : fres) | MBool (b : bool).
 
 Definition model_of (c : call) : mres :=
   match c with
@@ -80,6 +82,7 @@ Definition model_of (c : call) : mres :=
   | CRepartition s f => MOut (repartition_check s f)
   | CReshard s n => MOut (reshard_check CU s n)
   | CCogroup ss => MOut (cogroup_check CU ss)
+  | CInvocation ps args => MFunc (invocation_check CU ps args)
   | QAssignable v t => MBool (assignable CU v t)
   | QCanHash t => MBool (can_hash CU t)
   | QCanCompare t => MBool (can_compare CU t)
@@ -90,6 +93,9 @@ Definition agree (m : mres) (o : observed) : bool :=
   | MOut (Accept s), OAccept s' => stype_eqb s s'
   | MOut Reject, OTypeErr _ => true
   | MOut GoPanic, OPanic => true
+  | MFunc FOk, OOk => true
+  | MFunc FReject, OTypeErr _ => true
+  | MFunc FGoPanic, OPanic => true
   | MBool b, OBool b' => Bool.eqb b b'
   | _, _ => false
   end.
@@ -121,10 +127,17 @@ Definition schema_of (c : call) : option (option rspec) :=
    rejected by a typecheck error attributed to the caller's line - not accepted,
    not another panic, not attributed elsewhere. *)
 Definition ok (c : call) (o : observed) : bool :=
+  match c with
+  | CInvocation ps args =>
+      if invocation_schema_b CU ps args
+      then match o with OOk => true | _ => false end
+      else match o with OTypeErr true => true | _ => false end
+  | _ =>
   match schema_of c with
   | None => true
   | Some (Some r) => match o with OAccept out => meets_b r out | _ => false end
   | Some None => match o with OTypeErr true => true | _ => false end
+  end
   end.
 
 Definition mismatches (cs : list case) : list nat :=
